@@ -117,7 +117,7 @@ func TestC07Reject(t *testing.T) {
 		bi := rapid.IntRange(0, len(s.c.Bindings)-1).Draw(t, "binding")
 		b := &s.c.Bindings[bi]
 		p := mrogen.FindParam(ins, b.Param)
-		kind := rapid.SampledFrom([]string{"wrong-literal", "wrong-literal", "wrong-literal", "unknown-param", "missing-param", "bad-output-ref", "bad-field-ref", "split-mismatch", "wrong-ref", "wrong-ref", "wrong-default-shorthand"}).Draw(t, "mutation")
+		kind := rapid.SampledFrom([]string{"wrong-literal", "wrong-literal", "wrong-literal", "unknown-param", "missing-param", "bad-output-ref", "bad-field-ref", "split-mismatch", "wrong-ref", "wrong-ref", "wrong-default-shorthand", "mapped-output-depth", "mapped-output-depth"}).Draw(t, "mutation")
 		switch kind {
 		case "wrong-literal":
 			e, n := wrongExpr(t, prog.U, p.T)
@@ -188,6 +188,32 @@ func TestC07Reject(t *testing.T) {
 			if prog.Top.Callee == s.pl.Name {
 				prog.Top.Bindings = append(prog.Top.Bindings, mrogen.Binding{Param: "zz_in", E: null})
 			}
+			kind += ":" + sub
+		case "mapped-output-depth":
+			// the output of a map call has one more dimension than the
+			// stage declares: a new stage with an output of exactly the
+			// parameter's type, map-called over a literal, is bound to the
+			// parameter (its type is then T[] or map<T>, never T); the calls
+			// may be written in any order
+			if s.pl == nil {
+				return
+			}
+			if _, isSplit := b.E.(mrogen.Split); isSplit {
+				return
+			}
+			intT := mrogen.Ty{Base: "int"}
+			prog.Stages = append(prog.Stages, &mrogen.Stage{Name: "ZZ_M", Ins: []mrogen.Param{{Name: "p", T: intT}},
+				Outs: []mrogen.Param{{Name: "o", T: p.T}}, SrcLang: "comp", SrcPath: "stagebin ZZ_M"})
+			one, two := mrogen.Lit{V: json.Number("1"), T: intT}, mrogen.Lit{V: json.Number("2"), T: intT}
+			var over mrogen.Expr = mrogen.ArrayLit{Elems: []mrogen.Expr{one, two}}
+			sub := "array"
+			if p.T.Map == 0 && p.T.Base != "map" && rapid.Bool().Draw(t, "overMap") {
+				over = mrogen.MapLit{Keys: []string{"a", "b"}, Vals: []mrogen.Expr{one, two}}
+				sub = "map"
+			}
+			zc := &mrogen.Call{Id: "ZZ_M", Callee: "ZZ_M", Mapped: true, Bindings: []mrogen.Binding{{Param: "p", E: mrogen.Split{E: over}}}}
+			s.pl.Calls = append([]*mrogen.Call{zc}, s.pl.Calls...)
+			b.E = mrogen.Ref{Call: "ZZ_M", Out: "o"}
 			kind += ":" + sub
 		case "wrong-default-shorthand":
 			// legacy shorthand "x = CALL" for "x = CALL.default": a new stage
@@ -280,7 +306,11 @@ func TestC07Reject(t *testing.T) {
 				}
 			}
 		}
-		src, lines := prog.SourceLines(nil)
+		var lay *mrogen.Layout
+		if rapid.Bool().Draw(t, "shuffleCalls") {
+			lay = &mrogen.Layout{Pick: func(n int) int { return rapid.IntRange(0, n-1).Draw(t, "lay") }, ShuffleCalls: true}
+		}
+		src, lines := prog.SourceLines(lay)
 		key := "." + s.c.Id
 		if s.pl != nil {
 			key = s.pl.Name + "." + s.c.Id
